@@ -128,13 +128,16 @@ theorem held_never_reexecuted_top (n : Node) (s : St) (v : Val)
   unfold evalTop; simp [hc, hl]
 
 /-- …and the same for a call made from inside a formula: the evaluator for misses is not
-invoked, the log is unchanged, the held value is returned. -/
+invoked, the log is unchanged, the held value is returned.  (`ha`: the cells exists – a cells
+that was deleted holds nothing, `C13.reachable_dead_cells_hold_nothing`, and its name is not
+bound.) -/
 theorem held_never_reexecuted (ef : Node → St → Res × St) (n : Node) (s : St) (v : Val)
+    (ha : env.alive n.1 = true)
     (hc : env.cached n.1 = true) (hl : lookup s.data n = some v) :
     (evalNode env ef n s).1 = .ok v ∧ (evalNode env ef n s).2.log = s.log ∧
     (evalNode env ef n s).2.data = s.data := by
   unfold evalNode
-  simp only [hc, if_true, hl]
+  simp only [ha, hc, if_true, hl]
   refine ⟨trivial, ?_, (sameCache_hitEdge s n).data⟩
   unfold St.hitEdge
   split
